@@ -27,7 +27,7 @@ Theorem run_open_inputs_ok_named fuel W name d id p xin r c :
   /\ (C05.anonymous_name r = false \/ r = c)
   /\ exists pv iv,
        alookup p (w_provs W) = Some pv
-       /\ export big_fuel iv = Some xin
+       /\ export_t iv = Some xin
        /\ contains_unknowns iv = false
        /\ x_has_unknown xin = false
        /\ fst (validate (AccIn (pv_in pv)) iv) = true
@@ -42,7 +42,7 @@ Theorem open_inputs_ok_named W fuel root name d id p xin r c :
   /\ (C05.anonymous_name r = false \/ r = c)
   /\ exists pv iv,
        alookup p (w_provs W) = Some pv
-       /\ export big_fuel iv = Some xin
+       /\ export_t iv = Some xin
        /\ contains_unknowns iv = false
        /\ x_has_unknown xin = false
        /\ fst (validate (AccIn (pv_in pv)) iv) = true
